@@ -21,6 +21,7 @@ def check(A):
         R.get_result_rule(A, fl, 'C03')
     R.isolation_rules(A, 'C03')
     R.jsonp_rule(A, 'C03')
+    R.codec_registry_rules(A, 'C03')
     R.driver_send_rule(A, 'C03')
     # binary messages leave on the channel kind of the transport that carries them (C01 cache)
     from . import C01
